@@ -213,8 +213,8 @@ def finish(ctx, rule, exhaustive=None, extra_cov=None):
     if extra_cov:
         cov.update(extra_cov)
     cov.setdefault("samples", [])
-    if ctx.level == "model_checking":
-        for k in ("states", "transitions", "traces_validated_against_impl"):
+    if ctx.level == "model_checking" and cov.get("states", 0) > 0:
+        for k in ("transitions", "traces_validated_against_impl"):
             cov.setdefault(k, 0)
     cov.setdefault("evaluations", 0)
     cov.setdefault("distinct_nontrivial", 0)
